@@ -1201,3 +1201,194 @@ Proof.
   - rewrite <- (e_abs_keys _ Hg), <- (e_abs_keys _ He), Habs, Habs'. reflexivity.
   - rewrite (getpos_abs _ a Hg), (getpos_abs _ a He), Habs, Habs'. reflexivity.
 Qed.
+
+(* ================================================================= round 3 *)
+(* ---------------------------------------------------------------- space.agents ORDER *)
+(* the order the code fixes: active_agents is appended to by _add_agent, deleted from in place by _remove_agent,
+   never touched by a move or a query; model.agents (model._agents) evolves the same way *)
+Definition e_order_step (c : ecfg) (l : list Z) (o : eop) : list Z :=
+  match o with
+  | EAdd a p =>
+      if negb (dim_ok (ec_bounds c) p) || mem a l || (negb (ec_torus c) && negb (in_closed (ec_bounds c) p))
+      then l else l ++ [a]
+  | ERemove a => filter (fun b => negb (b =? a)) l
+  | EClear => []
+  | _ => l
+  end.
+
+Lemma filter_neq_notin a (l : list Z) : ~ In a l -> filter (fun b => negb (b =? a)) l = l.
+Proof.
+  induction l as [|x t IH]; intros H; [reflexivity|]. cbn [filter].
+  destruct (x =? a) eqn:E; [apply Z.eqb_eq in E; subst; exfalso; apply H; left; reflexivity|].
+  cbn [negb]. rewrite IH; [reflexivity|]. intros Hin. apply H. right. exact Hin.
+Qed.
+
+Lemma espec_keys_step c (m : amap) o :
+  akeys (fst (espec_step c m o)) = e_order_step c (akeys m) o.
+Proof.
+  destruct o as [a p|a p|a|q|q r|q k out|q|b r|b k out|b b'|q l|q l|]; cbn [espec_step e_order_step fst]; try reflexivity.
+  - destruct (_ || _ || _) eqn:Eg; [reflexivity|].
+    apply orb_false_iff in Eg. destruct Eg as [_ Eoob].
+    assert (exists p', norm_pos c p = Ok p') as [p' ->].
+    { unfold norm_pos. destruct (in_closed (ec_bounds c) p); [eauto|].
+      destruct (ec_torus c); [eauto|]. simpl in Eoob. discriminate. }
+    cbn [fst]. unfold akeys. rewrite map_app. reflexivity.
+  - destruct (_ || _) eqn:Eg; [reflexivity|].
+    apply orb_false_iff in Eg. destruct Eg as [_ Em]. apply negb_false_iff in Em. apply mem_In in Em.
+    destruct (norm_pos c p); [|reflexivity]. cbn [fst]. apply akeys_aset_old.
+    intros Hn. apply aget_None_keys in Hn. contradiction.
+  - destruct (mem a (akeys m)) eqn:Em; cbn [negb fst].
+    + rewrite akeys_adel. symmetry. apply filter_eqb_sym.
+    + symmetry. apply filter_neq_notin. rewrite <- mem_In. congruence.
+Qed.
+
+Lemma espec_final_keys c ops : forall m,
+  akeys (espec_final c m ops) = fold_left (e_order_step c) ops (akeys m).
+Proof.
+  induction ops as [|o t IH]; intros m; [reflexivity|].
+  cbn [espec_final fold_left]. rewrite IH, espec_keys_step. reflexivity.
+Qed.
+
+(* C10_exp_agents_order *)
+Theorem exp_agents_order c ops :
+  e_active (e_final c (e_init c) ops) = fold_left (e_order_step c) ops [] /\
+  e_model (e_final c (e_init c) ops) = fold_left (e_order_step c) ops [].
+Proof.
+  destruct (e_final_refines c ops (e_init c) (init_invM c)) as [[Hinv Hmod] Habs].
+  rewrite Hmod. rewrite <- (e_abs_keys _ Hinv), Habs, espec_final_keys. auto.
+Qed.
+
+(* ---------------------------------------------------------------- agent.remove() / model.remove_all_agents() *)
+(* C10_remove_from_model_leaves_space: in every reachable state the agents registered with the model are exactly the
+   agents of the space (same order); agent.remove() takes the agent out of both, it reports no position any more, and the
+   map of everybody else is untouched; remove_all_agents() empties both *)
+Theorem remove_from_model_leaves_space c ops a :
+  let s := e_final c (e_init c) ops in
+  e_model s = e_active s /\
+  (In a (e_model s) ->
+   let s' := fst (estep c s (ERemove a)) in
+   snd (estep c s (ERemove a)) = Some (Ok []) /\
+   ~ In a (e_model s') /\ ~ In a (e_active s') /\ e_getpos s' a = None /\
+   e_abs s' = adel a (e_abs s) /\
+   (forall b, b <> a -> e_getpos s' b = e_getpos s b)) /\
+  (let s' := fst (estep c s EClear) in
+   snd (estep c s EClear) = Some (Ok []) /\ e_model s' = [] /\ e_active s' = []).
+Proof.
+  cbn zeta. pose proof (exp_reachable_invM c ops) as HinvM. pose proof HinvM as [Hinv Hmod].
+  split; [exact Hmod|]. split.
+  - intros Hin. rewrite Hmod in Hin.
+    destruct (estep_sim c _ (ERemove a) HinvM) as [[Hinv' Hmod'] Hsim].
+    cbn [espec_step] in Hsim. rewrite (mem_active_abs _ a Hinv) in Hsim.
+    assert (mem a (e_active (e_final c (e_init c) ops)) = true) as Hm by (apply mem_In; exact Hin).
+    rewrite Hm in Hsim. cbn [negb] in Hsim.
+    remember (estep c (e_final c (e_init c) ops) (ERemove a)) as st eqn:Est. clear Est.
+    pose proof (f_equal fst Hsim) as Habs. pose proof (f_equal snd Hsim) as Hres. cbn [fst snd] in Habs, Hres.
+    assert (Hnot : ~ In a (e_active (fst st))).
+    { rewrite <- (e_abs_keys _ Hinv'), <- Habs. apply aget_None_keys. apply aget_adel_same. }
+    split; [symmetry; exact Hres|]. split; [rewrite Hmod'; exact Hnot|]. split; [exact Hnot|].
+    split; [rewrite (getpos_abs _ a Hinv'), <- Habs; apply aget_adel_same|].
+    split; [symmetry; exact Habs|].
+    intros b Hb. rewrite (getpos_abs _ b Hinv'), (getpos_abs _ b Hinv), <- Habs. apply aget_adel_other. exact Hb.
+  - destruct (estep_sim c _ EClear HinvM) as [[Hinv' Hmod'] Hsim].
+    cbn [espec_step] in Hsim.
+    remember (estep c (e_final c (e_init c) ops) EClear) as st eqn:Est. clear Est.
+    pose proof (f_equal fst Hsim) as Habs. pose proof (f_equal snd Hsim) as Hres. cbn [fst snd] in Habs, Hres.
+    split; [symmetry; exact Hres|].
+    assert (e_active (fst st) = []) as Hnil by (rewrite <- (e_abs_keys _ Hinv'), <- Habs; reflexivity).
+    split; [rewrite Hmod'; exact Hnil|exact Hnil].
+Qed.
+
+(* ---------------------------------------------------------------- the agents= forms *)
+(* calculate_distances / calculate_difference_vector with agents=[...]: the rows of exactly the listed agents, in
+   the order listed (repeats and the empty list included); defined iff every listed agent is in the space *)
+Lemma positions_of_spec g (l : list Z) rows :
+  positions_of g l = Some rows <-> Forall2 (fun a p => g a = Some p) l rows.
+Proof.
+  revert rows. induction l as [|a t IH]; intros rows; cbn [positions_of].
+  - split; [intros H; inversion H; constructor|intros H; inversion H; reflexivity].
+  - destruct (g a) as [p|] eqn:Eg.
+    + destruct (positions_of g t) as [r|] eqn:Et.
+      * split.
+        -- intros H. inversion H. subst. constructor; [exact Eg|]. apply IH. reflexivity.
+        -- intros H. inversion H as [|? ? ? ? H1 H2]. subst. apply IH in H2. inversion H2. subst.
+           rewrite Eg in H1. inversion H1. reflexivity.
+      * split; [discriminate|]. intros H. inversion H as [|? ? ? ? H1 H2]. subst. apply IH in H2. discriminate.
+    + split; [discriminate|]. intros H. inversion H as [|? ? ? ? H1 H2]. subst. rewrite Eg in H1. discriminate.
+Qed.
+
+Theorem exp_subset_forms_exact c ops q l :
+  let s := e_final c (e_init c) ops in
+  dim_ok (ec_bounds c) q = true ->
+  (snd (estep c s (EDistancesOf q l)) <> None <-> forall a, In a l -> In a (e_active s)) /\
+  (forall rows, Forall2 (fun a p => fold_left (e_track c a) ops None = Some p) l rows ->
+     snd (estep c s (EDistancesOf q l))
+     = Some (Ok (concat (map (fun ar : Z * point => [fst ar; dist2 (ec_torus c) (ec_bounds c) (snd ar) q]) (combine l rows)))) /\
+     snd (estep c s (EDiffsOf q l))
+     = Some (Ok (concat (map (fun ar : Z * point => fst ar :: diffv (ec_torus c) (ec_bounds c) q (snd ar)) (combine l rows))))).
+Proof.
+  cbn zeta. intros Hd. pose proof (exp_reachable_invM c ops) as HinvM. pose proof HinvM as [Hinv _].
+  destruct (estep_sim c _ (EDistancesOf q l) HinvM) as [_ H1].
+  destruct (estep_sim c _ (EDiffsOf q l) HinvM) as [_ H2].
+  cbn [espec_step equery] in H1, H2. rewrite Hd in H1, H2. cbn [negb] in H1, H2.
+  pose proof (f_equal snd H1) as R1. pose proof (f_equal snd H2) as R2. cbn [snd] in R1, R2. clear H1 H2.
+  set (m := e_abs (e_final c (e_init c) ops)) in *.
+  assert (Hg : forall a, aget a m = fold_left (e_track c a) ops None).
+  { intros a. unfold m. rewrite <- (getpos_abs _ a Hinv). apply exp_position_last_assigned. }
+  split.
+  - rewrite <- R1. split.
+    + intros Hne a Ha. destruct (positions_of (fun a0 => aget a0 m) l) as [rows|] eqn:Ep; [|contradiction].
+      apply positions_of_spec in Ep. rewrite <- (e_abs_keys _ Hinv). fold m.
+      clear - Ep Ha. induction Ep as [|x p t r Hx Hr IH]; [destruct Ha|].
+      destruct Ha as [->|Ha]; [|apply IH; exact Ha].
+      destruct (in_dec Z.eq_dec a (akeys m)) as [H|H]; [exact H|]. apply aget_None_keys in H. congruence.
+    + intros Hall. destruct (positions_of (fun a0 => aget a0 m) l) as [rows|] eqn:Ep; [discriminate|].
+      exfalso. clear - Ep Hall Hinv. revert Ep. fold m.
+      induction l as [|x t IH]; cbn [positions_of]; [discriminate|].
+      destruct (aget x m) eqn:Ex.
+      * destruct (positions_of (fun a0 => aget a0 m) t); [discriminate|]. intros _. apply IH; [|reflexivity].
+        intros a Ha. apply Hall. right. exact Ha.
+      * intros _. apply aget_None_keys in Ex. apply Ex. unfold m. rewrite (e_abs_keys _ Hinv). apply Hall. left. reflexivity.
+  - intros rows Hrows.
+    assert (positions_of (fun a => aget a m) l = Some rows) as Ep.
+    { apply positions_of_spec. clear - Hrows Hg. induction Hrows as [|a p t r Hp Hr IH]; constructor;
+        [rewrite Hg; exact Hp|exact IH]. }
+    rewrite <- R1, <- R2, Ep. split; reflexivity.
+Qed.
+
+(* ---------------------------------------------------------------- get_nearest_neighbors with coincident agents *)
+Lemma filter_neq_length a (l : list Z) :
+  NoDup l -> In a l -> S (length (filter (fun b => negb (b =? a)) l)) = length l.
+Proof.
+  induction l as [|x t IH]; intros Hnd Hin; [destruct Hin|].
+  inversion Hnd as [|? ? Hx Hnd']. subst. cbn [filter length].
+  destruct (x =? a) eqn:E.
+  - apply Z.eqb_eq in E. subst x. cbn [negb]. rewrite filter_neq_notin by exact Hx. reflexivity.
+  - cbn [negb length]. f_equal. apply IH; [exact Hnd'|].
+    destruct Hin as [Hin|Hin]; [apply Z.eqb_neq in E; congruence|exact Hin].
+Qed.
+
+(* the documented boundary of ContinuousSpaceAgent.get_nearest_neighbors(k) = get_k_nearest_agents(self.position, k + 1)
+   minus self.  ds: the distances from self's position (self at distance 0), raw: ANY legal choice of k+1 nearest.
+   (i)  self in raw  -> exactly k distinct other agents, none farther than an other agent left out;
+   (ii) self not in raw -> the answer is raw itself: k+1 agents, every one of them at distance <= 0, i.e. exactly on self
+        (so this needs at least k+1 other agents coincident with self; with fewer, (i) is the only case) *)
+Theorem nearest_neighbors_boundary ds k a raw :
+  In (a, 0) ds -> knn_legal ds (S k) raw = true ->
+  let out := filter (fun b => negb (b =? a)) raw in
+  (In a raw ->
+     length out = k /\ NoDup out /\ ~ In a out /\
+     (forall b x d, In b out -> In (x, d) ds -> x <> a -> ~ In x out -> dist_of ds b <= d)) /\
+  (~ In a raw ->
+     out = raw /\ length out = S k /\ NoDup out /\ (forall b, In b out -> b <> a /\ dist_of ds b <= 0)).
+Proof.
+  intros Ha Hl. cbn zeta. destruct (knn_legal_sound _ _ _ Hl) as [H1 [H2 [H3 H4]]]. split.
+  - intros Hin. pose proof (filter_neq_length a raw H2 Hin) as Hlen.
+    split; [lia|]. split; [apply NoDup_filter; exact H2|]. split.
+    + intros Hf. apply filter_In in Hf. destruct Hf as [_ Hf]. rewrite Z.eqb_refl in Hf. discriminate.
+    + intros b x d Hb Hx Hne Hnx. apply filter_In in Hb. destruct Hb as [Hb _].
+      apply (H4 b x d Hb Hx). intros Hxr. apply Hnx. apply filter_In. split; [exact Hxr|].
+      destruct (x =? a) eqn:E; [apply Z.eqb_eq in E; contradiction|reflexivity].
+  - intros Hnin. rewrite (filter_neq_notin a raw Hnin).
+    split; [reflexivity|]. split; [exact H1|]. split; [exact H2|].
+    intros b Hb. split; [intros ->; contradiction|]. apply (H4 b a 0 Hb Ha Hnin).
+Qed.
